@@ -123,6 +123,19 @@ def handle(op, a):
     if op == "c18.decstack":
         v = t.Stack(items(a[0]) or []).decode_stack()
         return "ok:" + (",".join(str(x) for x in v) if v else "-")
+    if op == "c18.stackseq":
+        st = t.Stack(items(a[0]) or [])
+        res = []
+        for o in a[1].split(","):
+            k, arg = o[0], o[1:]
+            if k == "d": res.append(str(st.decode_element(int(arg))))
+            elif k == "D": res.append("[" + ";".join(str(x) for x in st.decode_stack()) + "]")
+            elif k == "g": res.append(hx(st[int(arg)]))
+            elif k == "s": res.append(str(st.size()))
+            elif k == "P": st.push(unhex(arg))
+            elif k == "O": res.append(hx(st.pop()))
+            else: raise ValueError("bad op")
+        return "ok:%s|%s" % (",".join(res), show_stack(stack_items(st)))
     if op == "c18.pushint":
         s = t.Stack(); s.push_bytes_integer([int(a[0])]); return "ok:" + hx(s[0])
     if op == "c18.utilenc": return "ok:" + hx(util.encode_num(int(a[0])))
